@@ -39,7 +39,7 @@ fn type_case_budget<T: Zoo>(ctx: &mut Ctx, rng: &mut Rng, o: &TOpts, label: &str
     let fs = guarded(|| Vec::<Field>::from_samples(&cover, o.to_options()).map_err(|e| e.to_string()));
     let samples: Vec<Val> = cover.iter().map(|v| zoo::to_val(v)).collect();
     ctx.count(&format!("{}:{}:from_type_{}:from_samples_{}", label, T::NAME, ft.class(), fs.class()));
-    let coq = format!("{{| c_opts := {}; c_budget := {}; c_ty := {}; c_from_type := {}; c_samples := {}; c_from_samples := {} |}}", o.coq(), budget, T::ty(), res_coq(&ft), cf::list(&samples, arrgen::val_coq), res_coq(&fs));
+    let coq = format!("{{| c_opts := {}; c_budget := {}; c_overwrites := []; c_ty := {}; c_from_type := {}; c_samples := {}; c_from_samples := {} |}}", o.coq(), budget, T::ty(), res_coq(&ft), cf::list(&samples, arrgen::val_coq), res_coq(&fs));
     let idx = ctx.add_case(coq, json!({"type": T::NAME, "options": format!("{:?}", o), "from_type_budget": budget, "from_type": match &ft { Out::Ok(f) => format!("Ok({:?})", f), Out::Err(e) => format!("Err({})", e), Out::Panic(p) => format!("Panic({})", p) }, "from_samples": match &fs { Out::Ok(f) => format!("Ok({:?})", f), Out::Err(e) => format!("Err({})", e), Out::Panic(p) => format!("Panic({})", p) }}), true);
     if let (Out::Ok(a), Out::Ok(b)) = (&ft, &fs) {
         let ca: Vec<String> = a.iter().map(canon).collect(); let cb: Vec<String> = b.iter().map(canon).collect();
@@ -78,7 +78,7 @@ fn overwrite_cases<T: Zoo>(ctx: &mut Ctx, rng: &mut Rng) {
         }
         let new_field = Field { name: orig.name.clone(), data_type: DataType::LargeUtf8, nullable: true, metadata: [("replaced".to_string(), "yes".to_string())].into_iter().collect() };
         let found = replace(&mut expect, "", path, &new_field);
-        let idx = ctx.add_case(format!("{{| c_opts := {}; c_budget := 100; c_ty := TyStruct []; c_from_type := Err; c_samples := []; c_from_samples := Err |}}", TOpts::default().coq()), json!({"type": T::NAME, "overwrite_at": path, "result": match &r { Out::Ok(f) => format!("Ok({:?})", f), Out::Err(e) => format!("Err({})", e), Out::Panic(p) => format!("Panic({})", p) }}), true);
+        let idx = ctx.add_case(format!("{{| c_opts := {}; c_budget := 100; c_overwrites := []; c_ty := TyStruct []; c_from_type := Err; c_samples := []; c_from_samples := Err |}}", TOpts::default().coq()), json!({"type": T::NAME, "overwrite_at": path, "result": match &r { Out::Ok(f) => format!("Ok({:?})", f), Out::Err(e) => format!("Err({})", e), Out::Panic(p) => format!("Panic({})", p) }}), true);
         match &r {
             Out::Ok(got) => if found && *got != expect { ctx.fail(idx, "overwrite_not_exact", format!("{}: overwrite at {:?} gives {:?}, expected {:?}", T::NAME, path, got, expect)); },
             Out::Err(e) => ctx.fail(idx, "overwrite_refused", format!("{}: overwrite at the existing path {:?} is refused: {}", T::NAME, path, e)),
@@ -94,6 +94,36 @@ fn overwrite_cases<T: Zoo>(ctx: &mut Ctx, rng: &mut Rng) {
     let _ = rng;
 }
 
+/// overwrites compared with the models of both tracers (to_field consults the overwrite before the node itself;
+/// check_overwrites refuses unknown paths): at every path of the traced tree, with and without allow_null_fields
+/// (so that the overwritten node may be one that could not be traced on its own), with the right name, a wrong
+/// name and below a non-existent child
+fn overwrite_model_cases<T: Zoo>(ctx: &mut Ctx, rng: &mut Rng) {
+    let mut o = TOpts::default(); o.allow_null = true; o.map_as_struct = false;
+    let Ok(base) = Vec::<Field>::from_type::<T>(o.to_options()) else { return };
+    let mut all = vec![]; for f in &base { paths("", f, &mut all); }
+    let cover = T::covering(rng);
+    let samples: Vec<Val> = cover.iter().map(|v| zoo::to_val(v)).collect();
+    for (path, orig) in all.iter().take(if ctx.thorough { 64 } else { 10 }) {
+        for allow_null in [true, false] {
+            for (kind, name, p) in [("exact", orig.name.clone(), path.clone()), ("wrong_name", format!("{}_x", orig.name), path.clone()), ("missing_path", orig.name.clone(), format!("{}.nope", path))] {
+                let mut o2 = o.clone(); o2.allow_null = allow_null;
+                let replacement = Field { name: name.clone(), data_type: DataType::LargeUtf8, nullable: true, metadata: Default::default() };
+                let mk = || o2.to_options().overwrite(p.as_str(), json!({"name": name, "data_type": "LargeUtf8", "nullable": true})).map_err(|e| e.to_string());
+                let ft = guarded(|| Vec::<Field>::from_type::<T>(mk()?).map_err(|e| e.to_string()));
+                let fs = guarded(|| Vec::<Field>::from_samples(&cover, mk()?).map_err(|e| e.to_string()));
+                ctx.count(&format!("overwrite_model:{}:allow_null_{}:from_type_{}:from_samples_{}", kind, allow_null, ft.class(), fs.class()));
+                let ow = format!("[({}, {})]", cf::text(&format!("$.{}", p)), tg::sfield_coq(&replacement).unwrap());
+                let coq = format!("{{| c_opts := {}; c_budget := 100; c_overwrites := {}; c_ty := {}; c_from_type := {}; c_samples := {}; c_from_samples := {} |}}", o2.coq(), ow, T::ty(), res_coq(&ft), cf::list(&samples, arrgen::val_coq), res_coq(&fs));
+                let idx = ctx.add_case(coq, json!({"type": T::NAME, "options": format!("{:?}", o2), "overwrite": kind, "path": p, "from_type": match &ft { Out::Ok(f) => format!("Ok({:?})", f), Out::Err(e) => format!("Err({})", e), Out::Panic(p) => format!("Panic({})", p) }, "from_samples": match &fs { Out::Ok(f) => format!("Ok({:?})", f), Out::Err(e) => format!("Err({})", e), Out::Panic(p) => format!("Panic({})", p) }}), true);
+                if let Out::Panic(pn) = &ft { ctx.fail(idx, "panic", format!("from_type panics: {}", pn)); }
+                if let Out::Panic(pn) = &fs { ctx.fail(idx, "panic", format!("from_samples panics: {}", pn)); }
+                if kind != "exact" { if let Out::Ok(_) = &ft { ctx.fail(idx, "overwrite_error_case_accepted", format!("{}: overwrite ({}) at {:?} is accepted by from_type", T::NAME, kind, p)); } }
+            }
+        }
+    }
+}
+
 fn all_for<T: Zoo>(ctx: &mut Ctx, exhaustive: bool) {
     let mut rng = ctx.rng.fork();
     if exhaustive { for b in 0..512u32 { type_case::<T>(ctx, &mut rng, &TOpts::from_bits(b), "all_options"); } }
@@ -107,6 +137,7 @@ fn all_for<T: Zoo>(ctx: &mut Ctx, exhaustive: bool) {
         }
     }
     overwrite_cases::<T>(ctx, &mut rng);
+    overwrite_model_cases::<T>(ctx, &mut rng);
 }
 
 pub fn run(ctx: &mut Ctx) {
